@@ -672,6 +672,11 @@ func c28short(k []byte) string {
 
 func runC28(c *Ctx) error {
 	c.Setup("Keys TxnModify CorrC28", "run_case")
+	if os.Getenv("VERIF_C28_CHILD") == "" {
+		if err := runC28BannedNamespaces(c); err != nil {
+			return err
+		}
+	}
 	type J = map[string]interface{}
 	scratch := os.Getenv("VERIF_SCRATCH_DIR")
 	if scratch == "" {
